@@ -1,12 +1,218 @@
 (* Properties/C01.v — the query API reports exactly the content of every added lexicon.
-   Statements only.  (The add-model theorems are added as Model/Add.v grows; today: batching.) *)
-From Coq Require Import ZArith List.
+   The property is the composition of two modelled layers, each tied to the code by its own correspondence:
+   (1) document -> rows (Model/Add.v, theorems below: Proofs/AddContent.v): adding a resource appends, for every lexicon that is
+       not skipped, exactly one row per declared element, in document order, with the document's values, and changes nothing else;
+   (2) rows -> API (Model/Core.v; Properties C04/C09/C10/C11): the API lists exactly the rows of the selected lexicons.
+   Vocabulary (Proofs/AddContent.v): [App t d d' vss] = table t of d' is table t of d followed by rows with consecutive fresh
+   rowids carrying the cell lists vss, in that order; the *_row functions give the stored cells of a document element
+   (coerced to the column types); lookups (ENTRY_QUERY, SYNSET_QUERY, ili_lookup ...) are evaluated in the final database d'.
+   Batching: wn._add inserts in batches of BATCH_SIZE; every statement is about the concatenation of the batches.
+   Statements only: every theorem is closed by `exact` of a lemma proved under Proofs/, followed by
+   Print Assumptions.  (Statement texts were printed by Coq from the proved lemmas by harness/mkprops.py and are
+   fixed from then on.) *)
+From Coq Require Import String.
+From Coq Require Import ZArith List Bool.
 Import ListNotations.
-Require Import WnV.Base.Sx WnV.Gen.Constants WnV.Proofs.Batch.
+Require Import WnV.Base.Sx WnV.Gen.Schema WnV.Gen.Constants WnV.Model.Spec WnV.Model.Val.
+Require Import WnV.Model.Rel WnV.Model.Add WnV.Proofs.AddProofs.
+Require Import WnV.Proofs.AddContent WnV.Proofs.Batch.
 Local Open Scope Z_scope.
+Local Open Scope string_scope.
 
-(* wn._add._batch with the BATCH_SIZE the source has now loses, duplicates and reorders nothing *)
-Theorem C01_batches_concat : forall T (xs : list T),
-    concat (batch (Z.to_nat BATCH_SIZE) xs) = xs.
-Proof. exact batches_concat. Qed.
+(* ---- batching loses, duplicates and reorders nothing (for the BATCH_SIZE the source has now) *)
+Theorem C01_batches_concat :
+  forall (T : Type) (xs : list T), concat (batch (Z.to_nat BATCH_SIZE) xs) = xs.
+Proof. exact (@batches_concat). Qed.
 Print Assumptions C01_batches_concat.
+
+(* ---- D1: one new lexicons row per lexicon that is not skipped, in document order, with id, label, language, email, license, version, url, citation, logo, metadata *)
+Theorem C01_add_lexicons_rows :
+  forall (d : db) (r : val) (nt : normtable) (d' : db) (lexs : list val),
+         add_lexical_resource d r nt = Ok d' ->
+         vreq r "lexicons" = Ok (VList lexs) ->
+         exists skipmap : skipmap_t,
+           (lexs = [] \/ _precheck lexs d = Ok skipmap) /\
+           App "lexicons" d d' (map lexicon_row (filter (not_skipped skipmap) lexs)).
+Proof. exact (@add_lexicons_rows). Qed.
+Print Assumptions C01_add_lexicons_rows.
+
+Theorem C01_add_resource_lexicon :
+  forall (d : db) (r : val) (nt : normtable) (d' : db) (pre : list val)
+           (L : val) (post : list val),
+         add_lexical_resource d r nt = Ok d' ->
+         vreq r "lexicons" = Ok (VList (pre ++ L :: post)) ->
+         exists skipmap : skipmap_t,
+           _precheck (pre ++ L :: post) d = Ok skipmap /\
+           (not_skipped skipmap L = true ->
+            exists d1 d2 : db,
+              db_ext d d1 /\
+              add_one_lexicon nt L d1 = Ok d2 /\
+              db_ext d2 d' /\
+              foldM (lex_step nt skipmap) pre d = Ok d1 /\
+              foldM (lex_step nt skipmap) post d2 = Ok d').
+Proof. exact (@add_resource_lexicon). Qed.
+Print Assumptions C01_add_resource_lexicon.
+
+Theorem C01_add_single_lexicon :
+  forall (d : db) (r : val) (nt : normtable) (d' : db) (L : val),
+         add_lexical_resource d r nt = Ok d' ->
+         vreq r "lexicons" = Ok (VList [L]) ->
+         exists skipmap : skipmap_t,
+           _precheck [L] d = Ok skipmap /\
+           (not_skipped skipmap L = true -> add_one_lexicon nt L d = Ok d').
+Proof. exact (@add_single_lexicon). Qed.
+Print Assumptions C01_add_single_lexicon.
+
+Theorem C01_one_lexicon_lexicons :
+  forall (nt : normtable) (L : val) (d d' : db),
+         add_one_lexicon nt L d = Ok d' -> App "lexicons" d d' [lexicon_row L].
+Proof. exact (@one_lexicon_lexicons). Qed.
+Print Assumptions C01_one_lexicon_lexicons.
+
+(* ---- D2: exactly the local (non-external) entries, in document order, with id, pos and metadata, owned by the new lexicon *)
+Theorem C01_one_lexicon_entries :
+  forall (nt : normtable) (L : val) (d d' : db),
+         add_one_lexicon nt L d = Ok d' ->
+         App "entries" d d'
+           (map (entry_row (next_rowid (get_table d "lexicons"))) (_local_entries (_entries L))).
+Proof. exact (@one_lexicon_entries). Qed.
+Print Assumptions C01_one_lexicon_entries.
+
+Theorem C01_add_single_lexicon_entries :
+  forall (d : db) (r : val) (nt : normtable) (d' : db) (L : val) (skipmap : skipmap_t),
+         add_lexical_resource d r nt = Ok d' ->
+         vreq r "lexicons" = Ok (VList [L]) ->
+         _precheck [L] d = Ok skipmap ->
+         not_skipped skipmap L = true ->
+         new_rows "lexicons" d d' = number_from (next_rowid (get_table d "lexicons")) [lexicon_row L] /\
+         new_rows "entries" d d' =
+         number_from (next_rowid (get_table d "entries"))
+           (map (entry_row (next_rowid (get_table d "lexicons"))) (_local_entries (_entries L))).
+Proof. exact (@add_single_lexicon_entries). Qed.
+Print Assumptions C01_add_single_lexicon_entries.
+
+(* ---- D3: forms: the lemma with rank 0 then the further forms in document order with ranks 1.., with written form, id, script and the normalized form (NULL when equal); an extension adds only its non-external forms to external entries *)
+Theorem C01_one_lexicon_forms :
+  forall (nt : normtable) (L : val) (d d' : db),
+         add_one_lexicon nt L d = Ok d' ->
+         exists (lexid extid : Z) (lexidmap : lexidmap_t),
+           lexid = next_rowid (get_table d "lexicons") /\
+           _build_lexid_map L lexid extid = Ok lexidmap /\
+           App "forms" d d' (flat_map (entry_form_rows d' nt lexid lexidmap) (_entries L)).
+Proof. exact (@one_lexicon_forms). Qed.
+Print Assumptions C01_one_lexicon_forms.
+
+(* ---- D4: exactly the local synsets in document order (ILI resolved through the ilis table, pos, lexicalized, lexfile, metadata); proposed_ilis rows exactly for ili="in" with the ILIDefinition *)
+Theorem C01_one_lexicon_synsets :
+  forall (nt : normtable) (L : val) (d d' : db),
+         add_one_lexicon nt L d = Ok d' ->
+         let lexid := next_rowid (get_table d "lexicons") in
+         App "synsets" d d' (map (synset_row d' lexid) (_local_synsets (_synsets L))) /\
+         App "proposed_ilis" d d' (flat_map (proposed_rows d' lexid) (_local_synsets (_synsets L))).
+Proof. exact (@one_lexicon_synsets). Qed.
+Print Assumptions C01_one_lexicon_synsets.
+
+(* ---- D5: exactly the local senses in document order, linked to their (possibly base-lexicon) entry and synset, entry rank = position among the senses of the entry, synset rank from the declared members *)
+Theorem C01_one_lexicon_senses :
+  forall (nt : normtable) (L : val) (d d' : db),
+         add_one_lexicon nt L d = Ok d' ->
+         exists (lexid extid : Z) (lexidmap : lexidmap_t),
+           lexid = next_rowid (get_table d "lexicons") /\
+           _build_lexid_map L lexid extid = Ok lexidmap /\
+           App "senses" d d'
+             (flat_map (entry_sense_rows d' lexid lexidmap (ssrank_of (_synsets L))) (_entries L)).
+Proof. exact (@one_lexicon_senses). Qed.
+Print Assumptions C01_one_lexicon_senses.
+
+(* ---- D6: children and relations: counts, adjpositions, examples, definitions, relations (sense-sense, sense-synset, synset-synset), syntactic behaviours and their sense links correspond one-to-one, in document order, to the declarations (including what an extension attaches to External elements) *)
+Theorem C01_one_lexicon_children :
+  forall (nt : normtable) (L : val) (d d' : db),
+         add_one_lexicon nt L d = Ok d' ->
+         exists (lexid extid : Z) (lexidmap : lexidmap_t) (synbhrs : list synbhr),
+           lexid = next_rowid (get_table d "lexicons") /\
+           _build_lexid_map L lexid extid = Ok lexidmap /\
+           _collect_frames L = Ok synbhrs /\
+           App "counts" d d' (flat_map (entry_count_rows d' lexid lexidmap) (_entries L)) /\
+           App "adjpositions" d d' (flat_map (adjposition_rows d' lexid lexidmap) (_entries L)) /\
+           App "sense_examples" d d'
+             (flat_map (sense_example_rows d' lexid lexidmap) (flat_map _senses (_entries L))) /\
+           App "synset_examples" d d' (flat_map (synset_example_rows d' lexid lexidmap) (_synsets L)) /\
+           App "definitions" d d' (flat_map (definition_rows d' lexid lexidmap) (_synsets L)) /\
+           App "synset_relations" d d'
+             (flat_map (synset_relation_rows d' lexid lexidmap) (_synsets L)) /\
+           App "sense_relations" d d'
+             (map (srel_row "sense_relations" SENSE_QUERY d' lexid)
+                (filter (to_sense (sense_ids_of L)) (sr_items L lexid lexidmap))) /\
+           App "sense_synset_relations" d d'
+             (map (srel_row "sense_synset_relations" SYNSET_QUERY d' lexid)
+                (filter (fun it : senserel => negb (to_sense (sense_ids_of L) it))
+                   (sr_items L lexid lexidmap))) /\
+           App "syntactic_behaviours" d d' (map (sb_row lexid) synbhrs) /\
+           App "syntactic_behaviour_senses" d d'
+             (flat_map (sbs_rows d' lexid lexidmap) (framemap_of synbhrs)).
+Proof. exact (@one_lexicon_children). Qed.
+Print Assumptions C01_one_lexicon_children.
+
+Theorem C01_ins_insert_sense_relations :
+  forall (L : val) (lexid : Z) (m : lexidmap_t) (d d' : db),
+         _insert_sense_relations L lexid m d = Ok d' ->
+         let items := sr_items L lexid m in
+         let sids := sense_ids_of L in
+         App "sense_relations" d d'
+           (map (srel_row "sense_relations" SENSE_QUERY d lexid) (filter (to_sense sids) items)) /\
+         App "sense_synset_relations" d d'
+           (map (srel_row "sense_synset_relations" SYNSET_QUERY d lexid)
+              (filter (fun it : senserel => negb (to_sense sids it)) items)) /\
+         only_changes ["sense_relations"; "sense_synset_relations"] d d'.
+Proof. exact (@ins_insert_sense_relations). Qed.
+Print Assumptions C01_ins_insert_sense_relations.
+
+Theorem C01_ins_insert_syntactic_behaviours :
+  forall (sbs : list synbhr) (lexid : Z) (m : lexidmap_t) (d d' : db),
+         _insert_syntactic_behaviours sbs lexid m d = Ok d' ->
+         App "syntactic_behaviours" d d' (map (sb_row lexid) sbs) /\
+         App "syntactic_behaviour_senses" d d' (flat_map (sbs_rows d' lexid m) (framemap_of sbs)) /\
+         only_changes ["syntactic_behaviours"; "syntactic_behaviour_senses"] d d'.
+Proof. exact (@ins_insert_syntactic_behaviours). Qed.
+Print Assumptions C01_ins_insert_syntactic_behaviours.
+
+(* ---- nothing else changes: rows of other lexicons stay in place (C05), references stay valid *)
+Theorem C01_add_keeps_rows :
+  forall (d : db) (r : val) (nt : normtable) (d' : db) (t : string),
+         add_lexical_resource d r nt = Ok d' ->
+         t <> "lexicon_dependencies" ->
+         exists news : list row,
+           get_table d' t = (get_table d t ++ news)%list /\
+           (forall r1 : row,
+            In r1 news -> forall r0 : row, In r0 (get_table d t) -> rowid_of r0 < rowid_of r1).
+Proof. exact (@add_keeps_rows). Qed.
+Print Assumptions C01_add_keeps_rows.
+
+Theorem C01_add_lexical_resource_fk_ok :
+  forall (d : db) (r : val) (nt : normtable) (d' : db),
+         fk_ok d = true -> add_lexical_resource d r nt = Ok d' -> fk_ok d' = true.
+Proof. exact (@add_lexical_resource_fk_ok). Qed.
+Print Assumptions C01_add_lexical_resource_fk_ok.
+
+(* ---- non-vacuity: the new rows of a concrete lexicon added to a concrete database *)
+Theorem C01_ex_content :
+  match add_one_lexicon [] (ex_lexicon "ba" []) ex_db with
+         | Ok d' =>
+             new_rows "lexicons" ex_db d' =
+             [[CInt 1; CText (k "ba"); CText (k "Label"); CText (k "en");
+               CText (k "a@b.c"); CText (k "CC"); CText (k "1"); CNull; CNull; CNull; CNull;
+               CInt 0]] /\
+             new_rows "entries" ex_db d' = [[CInt 1; CText (k "e1"); CInt 1; CText (k "n"); CNull]] /\
+             new_rows "forms" ex_db d' =
+             [[CInt 1; CNull; CInt 1; CInt 1; CText (k "cat"); CNull; CNull; CInt 0]] /\
+             new_rows "synsets" ex_db d' =
+             [[CInt 1; CText (k "ss1"); CInt 1; CInt 1; CText (k "n"); CInt 1; CNull; CNull]] /\
+             new_rows "senses" ex_db d' =
+             [[CInt 1; CText (k "s1"); CInt 1; CInt 1; CInt 0; CInt 1; CInt 127; CInt 1; CNull]] /\
+             new_rows "definitions" ex_db d' =
+             [[CInt 1; CInt 1; CInt 1; CText (k "a cat"); CNull; CInt 1; CNull]]
+         | _ => False
+         end.
+Proof. exact (@ex_content). Qed.
+Print Assumptions C01_ex_content.
+
